@@ -1,3 +1,10 @@
+//! vf-bp-b: blueprint-level checks C41 (liquidity pools) and C42 (validator staking / emissions),
+//! run as transaction histories on the shared engine world (`vf-world`) with an exact-integer
+//! oracle (`num`).
+
+pub mod c41;
+pub mod num;
+
 pub fn checks() -> Vec<vf_core::Check> {
-    vec![]
+    vec![c41::check()]
 }
